@@ -440,3 +440,25 @@ def c03_9(ctx):
                 ctx.fail(f, p.node, 'a leaf is returned as `%s`, expected [values]' % p.text())
     if not ctx.findings and seen != {'list', 'dict', 'leaf'}:
         ctx.fail(f, f.node, '_list no longer distinguishes lists, dicts and leaves')
+
+
+@obligation('C03.10', 'MATCH argument roles', '_pandas:presync.wrapped',
+            "a presync-decorated function aligns with the policies of ITS decorator unless the call overrides them: the index policy is kwargs.pop('join', self.index), the fill method kwargs.pop('method', self.method), the column policy kwargs.pop('columns', self.columns) - each keyword with its own attribute",
+            axioms=())
+def c03_10(ctx):
+    f = ctx.repo.fn('_pandas:presync.wrapped')
+    want = {'join': 'index', 'method': 'method', 'columns': 'columns'}
+    pops = [c for c in calls_in(f.node, 'pop') if isinstance(c.func, ast.Attribute) and U(c.func.value) == f.node.args.kwarg.arg and c.args and isinstance(c.args[0], ast.Constant)]
+    seen = {}
+    for c in pops:
+        k = c.args[0].value
+        if k in want:
+            ctx.count(1, f.where(c))
+            seen[k] = c
+            d = U(c.args[1]) if len(c.args) > 1 else None
+            if d != 'self.%s' % want[k]:
+                ctx.fail(f, c, "the `%s` policy falls back to `%s`, expected self.%s (the decorator's own setting for that axis)" % (k, d, want[k]),
+                         witness="presync(f, index='outer')(x[a,b,c], y[b,c,d]) must still join columns with the default inner policy")
+    for k in want:
+        if k not in seen:
+            ctx.fail(f, f.node, "the `%s` keyword is no longer taken out of the call's kwargs" % k)
